@@ -504,6 +504,12 @@ func listFields(withUID bool) []fld {
 	// (the wire order of a file list is free: the regular file comes first, so that a mutation of "list.<field>",
 	// which damages the FIRST field of that name, hits the entry whose data follows)
 	ent("f", wirekit.SIFREG|0o644, 1000, "", 0x40)
+	// an entry that shares its first byte with the previous name (XMIT_SAME_NAME | XMIT_LONG_NAME): "fd", a directory
+	fs = append(fs, fY("list2.flags", 0x60), fY("list2.l1", 1), fI("list2.namelen", 1), fB("list2.name", []byte("d")), f64("list2.size", 4096),
+		fI("list2.mtime", 1_500_000_000), fI("list2.mode", int64(wirekit.SIFDIR|0o755)))
+	if withUID {
+		fs = append(fs, fI("list2.uid", 1234))
+	}
 	ent(".", wirekit.SIFDIR|0o755, 4096, "", 0x41)
 	ent("l", wirekit.SIFLNK|0o777, 1, "f", 0x40)
 	fs = append(fs, fY("list.end", 0))
